@@ -1,2 +1,159 @@
-From Verif Require Import Model.Chain.
-Example C10_placeholder : 1 = 1. Proof. reflexivity. Qed.
+(* Properties/C10.v — An imported environment means the same everywhere.
+   Only statements closed by [exact]; the proofs live in Proofs/ChainAlgebra{Eval,Lit,Env}.v.
+   In the model chains are immutable values, so the aliasing half of the property (Go's merges mutate; the defensive
+   copier) is runtime behaviour that only the correspondence check can observe; what is proved here is the memo
+   discipline of the imports table and the state-independence of the value. *)
+From Verif Require Import Base.Bytes Model.Chain Model.Eval Corr.EvalWire Corr.C01
+  Proofs.ChainAlgebraSorted Proofs.ChainAlgebraExport Proofs.ChainAlgebra Proofs.ChainAlgebraDeep
+  Proofs.ChainAlgebraEval Proofs.ChainAlgebraLit Proofs.ChainAlgebraEnv Proofs.ChainAlgebraSrc Proofs.ChainAlgebraLink.
+From Coq Require Import Lia.
+Local Open Scope nat_scope.
+
+(* [imp_loop] is the import loop of eval_env (a named twin of the model's local fix) *)
+Theorem C10_eval_env_S : forall (W : world) (f : nat) (root name : string) (d : envdef),
+  eval_env W (S f) root name d =
+    (let root' := if String.eqb root "" then name else root in
+     imps_set name {| is_evaluating := true; is_value := None |} ;;;
+     r <- imp_loop W (eval_env W f) root' (ed_imports d) [] [] ;;
+     let '(base, my) := r in
+     imps_set name {| is_evaluating := false; is_value := None |} ;;;
+     add_err (N.of_nat (length (filter (fun kv => reserved (fst kv)) (ed_values d)))) ;;;
+     let E := env_ctx W root' name d base my in
+     eval_expr W f E (EObj (ec_values E)) false base (name, [])).
+Proof. exact eval_env_S. Qed.
+
+(* ---------- 6. the imports table is a memo ---------- *)
+(* an import already in the table and not in progress is not re-evaluated (no load, no event, state untouched) and contributes
+   exactly the stored value to imports.<n> and, when merged, to the base: for every position, listing order and repetition *)
+Theorem C10_imports_table_is_memo : forall (W : world) rec r n merge rest base my s i,
+  alookup n (imps s) = Some i -> is_evaluating i = false ->
+  imp_loop W rec r ((n, merge) :: rest) base my s =
+    let v := match is_value i with Some v => v | None => [] end in
+    imp_loop W rec r rest (if merge then v ++ base else base) (ainsert n v my) s.
+Proof. exact imports_table_is_memo. Qed.
+
+Theorem C10_imports_cycle_skipped : forall (W : world) rec r n merge rest base my s i,
+  alookup n (imps s) = Some i -> is_evaluating i = true ->
+  imp_loop W rec r ((n, merge) :: rest) base my s = imp_loop W rec r rest base my (snd (err s)).
+Proof. exact imports_cycle_skipped. Qed.
+
+(* the first encounter evaluates once and enters the result in the table, so every later occurrence is a memo hit *)
+Theorem C10_imports_first_load : forall (W : world) rec r n merge rest base my s d',
+  alookup n (imps s) = None -> w_fault W = None -> alookup n (w_envs W) = Some (LoadOk d') ->
+  imp_loop W rec r ((n, merge) :: rest) base my s =
+    let s1 := snd (emit (EvLoad n) (snd (call W s))) in
+    let '(v, s2) := rec r n d' s1 in
+    let s3 := set_imps n {| is_evaluating := false; is_value := Some v |} s2 in
+    imp_loop W rec r rest (if merge then v ++ base else base) (ainsert n v my) s3.
+Proof. exact imports_first_load. Qed.
+
+Theorem C10_table_after_store : forall n i s, alookup n (imps (set_imps n i s)) = Some i.
+Proof. exact set_imps_lookup. Qed.
+
+(* ---------- 7. merging does not alter ---------- *)
+(* ${imports.X} is exactly the stored chain, with no diagnostics *)
+Theorem C10_imports_access_stored : forall (f : nat) (my : list (string * chain)) (x : string) (c : chain),
+  alookup x my = Some c ->
+  value_access (S (S f)) (imports_value my) [AName x] = (c ++ [], 0%N)
+  /\ value_access (S (S f)) (imports_value my) [AKey x] = (c ++ [], 0%N).
+Proof. exact imports_access_stored. Qed.
+
+Theorem C10_imports_access_path : forall (f : nat) (my : list (string * chain)) (x : string) (rest : path) (c : chain) (a : accessor),
+  object_key a = Some x -> alookup x my = Some c ->
+  value_access (S f) (imports_value my) (a :: rest) = value_access f c rest.
+Proof. exact imports_value_access. Qed.
+
+(* storing further imports under other names leaves the entry for x alone *)
+Theorem C10_merge_does_not_alter : forall (k x : string) (v : chain) (my : list (string * chain)),
+  alookup x (ainsert k v my) = if String.eqb x k then Some v else alookup x my.
+Proof. exact (fun k x v my => alookup_ainsert k x v my). Qed.
+
+(* what the loop stores under imports.<x>, and the final state, never depend on the base values are merged onto *)
+Theorem C10_imp_loop_base_irrelevant : forall (W : world) rec r is base base' my s,
+  snd (fst (imp_loop W rec r is base my s)) = snd (fst (imp_loop W rec r is base' my s))
+  /\ snd (imp_loop W rec r is base my s) = snd (imp_loop W rec r is base' my s).
+Proof. exact imp_loop_base_irrelevant. Qed.
+
+(* ---------- 8. the value does not depend on the importer, the path, the listing order, the root or the fuel ---------- *)
+(* the full intended statement, for arbitrary expressions: every table entry left by evaluating R is the value of X opened on
+   its own (environments not reading context.rootEnvironment; acyclic, fault-free worlds).  NOT proved in this generality:
+   what is missing is a denotation of eval_expr/walk/eval_access for references, built-ins and providers together with the
+   invariant that the shared expression memo only ever holds such denotations (the literal case below needs only freshness
+   of memo ids). *)
+Definition C10_memo_eq_pure_statement : Prop :=
+  forall (W : world) (rank : string -> nat),
+    w_fault W = None ->
+    (forall n d im, env_of W n = Some d -> In im (ed_imports d) -> rank (fst im) < rank n) ->
+    (forall n d, env_of W n = Some d -> no_context_reference d) ->
+    forall (fuel fuel' : nat) (root root' R X : string) (dR dX : envdef) (i : imp_state),
+      env_of W R = Some dR -> env_of W X = Some dX -> X <> R ->
+      oof (snd (eval_env W fuel root R dR st0)) = false -> oof (snd (eval_env W fuel' root' X dX st0)) = false ->
+      alookup X (imps (snd (eval_env W fuel root R dR st0))) = Some i ->
+      is_value i = Some (fst (eval_env W fuel' root' X dX st0)).
+
+(* proved for worlds of literal environments: *)
+Theorem C10_imported_same_everywhere_lit : forall (W : world) (M0 : nat) (rank : string -> nat), lit_world W M0 rank ->
+  forall (fuel : nat) (root R : string) (dR : envdef) (X : string) (i : imp_state),
+    need M0 rank R <= fuel -> env_of W R = Some dR -> X <> R ->
+    alookup X (imps (snd (eval_env W fuel root R dR st0))) = Some i ->
+    exists dX, env_of W X = Some dX /\ i = done (dn W M0 rank X dX) /\
+               forall fuel' root', need M0 rank X <= fuel' -> is_value i = Some (fst (eval_env W fuel' root' X dX st0)).
+Proof. exact imported_same_everywhere_lit. Qed.
+
+(* state-independence: from ANY admissible incoming state (memo and table entries of other environments), any root, any
+   sufficient fuel, eval_env returns the pure denotation *)
+Theorem C10_memo_eq_pure_lit : forall (W : world) (M0 : nat) (rank : string -> nat), lit_world W M0 rank ->
+  forall (fuel fuel' : nat) (root root' name : string) (d : envdef) (s s' : st),
+    need M0 rank name <= fuel -> need M0 rank name <= fuel' -> env_of W name = Some d ->
+    pre W M0 rank name s -> pre W M0 rank name s' ->
+    fst (eval_env W fuel root name d s) = fst (eval_env W fuel' root' name d s') /\
+    fst (eval_env W fuel root name d s) = dn W M0 rank name d.
+Proof. exact memo_eq_pure_lit. Qed.
+
+Theorem C10_pre_st0 : forall W M0 rank name, pre W M0 rank name st0.
+Proof. exact pre_st0. Qed.
+
+(* ---------- non-vacuity ---------- *)
+(* a memo hit on concrete data: B is in the table; importing [B, B] loads nothing and stores/merges the stored chain twice *)
+Example C10_memo_example :
+  let v := [LScalar false false (ScType "number") (SNum "5")] in
+  let s := set_imps "B" {| is_evaluating := false; is_value := Some v |} st0 in
+  imp_loop wit_W (eval_env wit_W 8) "R" [("B", true); ("B", false)] [] [] s = ((v, [("B", v)]), s).
+Proof. vm_compute. reflexivity. Qed.
+
+Example C01_lit_world_W2_for_C10 : lit_world wit_W2 4 wit_rank.
+Proof. apply lit_world_b_ok. vm_compute. reflexivity. Qed.
+
+(* an admissible non-initial state: A already evaluated and stored *)
+Definition s_A : st := set_imps "A" (done (dn wit_W2 4 wit_rank "A" wit_A)) st0.
+
+Example C10_pre_sA : pre wit_W2 4 wit_rank "G" s_A.
+Proof.
+  split; [reflexivity|]. split; [intros ? ? []|]. split.
+  - intros n i Hn Hi. unfold s_A, set_imps, imps_set in Hn. cbn [snd imps alookup] in Hn.
+    destruct (String.eqb n "A") eqn:E; [|discriminate]. apply String.eqb_eq in E. subst n. injection Hn as <-.
+    exists wit_A. split; reflexivity.
+  - intros n i Hn Hi. unfold s_A, set_imps, imps_set in Hn. cbn [snd imps alookup] in Hn.
+    destruct (String.eqb n "A"); [|discriminate]. injection Hn as <-. discriminate.
+Qed.
+
+(* G evaluated over that state (A comes from the table) and from scratch (A is loaded and evaluated), different roots and fuels *)
+Example C10_memo_eq_pure_G :
+  fst (eval_env wit_W2 20 "other-root" "G" wit_G s_A) = fst (eval_env wit_W2 64 "" "G" wit_G st0).
+Proof.
+  exact (proj1 (memo_eq_pure_lit wit_W2 4 wit_rank C01_lit_world_W2_for_C10 20 64 "other-root" "" "G" wit_G s_A st0
+                  ltac:(vm_compute; lia) ltac:(vm_compute; lia) eq_refl C10_pre_sA (pre_st0 _ _ _ _))).
+Qed.
+
+(* D2 is reached twice from G (repetition) and A both directly and through D2 (diamond): every table entry is the standalone value *)
+Example C10_same_everywhere_G : forall X i,
+  X <> "G" -> alookup X (imps (snd (eval_env wit_W2 64 "" "G" wit_G st0))) = Some i ->
+  exists dX, env_of wit_W2 X = Some dX /\ is_value i = Some (fst (eval_env wit_W2 64 "" X dX st0)).
+Proof.
+  intros X i Hne Hi.
+  destruct (imported_same_everywhere_lit wit_W2 4 wit_rank C01_lit_world_W2_for_C10 64 "" "G" wit_G X i
+              ltac:(vm_compute; lia) eq_refl Hne Hi) as (dX & HdX & _ & H).
+  exists dX. split; [exact HdX|]. apply H.
+  assert (R : wit_rank X <= 2) by (unfold wit_rank; repeat match goal with |- context [String.eqb X ?k] => destruct (String.eqb X k) end; lia).
+  unfold need. lia.
+Qed.
